@@ -1,3 +1,5 @@
+//go:build verif_c02
+
 package main
 
 // C02 — saving is observationally pure and repeatable.
